@@ -20,6 +20,10 @@ from .dataflow import DataFlow
 
 Fact = tuple  # (kind, text, names frozenset)
 
+#: optional oracle (cfg, call node) -> True when the call can never return None (every resolved
+#: callee is annotated with a return type that does not admit None); installed by core.Ctx
+NONNULL_ORACLE = None
+
 
 def _names(e: ast.AST) -> frozenset[str]:
     return frozenset(n.id for n in ast.walk(e) if isinstance(n, ast.Name))
@@ -115,6 +119,8 @@ class PathFinder:
             for t in targets:
                 if isinstance(t, ast.Name):
                     out += _value_facts(t.id, a.value)
+                    if isinstance(a.value, ast.Call) and NONNULL_ORACLE is not None and NONNULL_ORACLE(self.cfg, a.value):
+                        out.append((("isnone", t.id, frozenset([t.id])), False))
                     # ``x = exc`` where exc is bound by an except clause: not None
                     if isinstance(a.value, ast.Name):
                         ds = self.df.reaching(n, a.value.id)
